@@ -19,7 +19,7 @@ func MinU64(a uint64, b uint64) uint64 {
 // The largest integer x such that x**2 is less than or equal to n.
 func IntegerSquareroot(n uint64) uint64 {
 	x := n
-	y := (x + 1) >> 1
+	y := (x >> 1) + (x & 1)
 	for y < x {
 		x = y
 		y = (x + n/x) >> 1
